@@ -50,6 +50,7 @@ const (
 	PYield
 	PTimer // NewTimer / AfterFunc / Stop / Reset
 	PNow   // read of the logical clock
+	PCond  // blocked until a condition on engine state holds (WaitGroup.Wait)
 )
 
 type SelCase struct {
@@ -67,6 +68,7 @@ type PendOp struct {
 	ctx        *CtxObj
 	timer      *TimerObj
 	ops        []opRef
+	cond       func() bool
 	// completion callbacks
 	done     func()                           // send / close / cancel / quiesce / yield
 	recv     func(v Value, ok bool)           // recv
@@ -100,6 +102,7 @@ type State struct {
 	now     *Term
 	bgCtx   *CtxObj
 	ghost   map[string]Value
+	auxs    map[auxKey]*AuxObj
 }
 
 func (in *Interp) newG(parent *G, fv *FuncV, args []Value, site string) *G {
@@ -689,7 +692,7 @@ func (in *Interp) callValue(g *G, fv *FuncV, args []Value, retTo ssa.Value, adv 
 		g.status = GPending
 		g.pend = &PendOp{kind: PYield, pos: in.curPos, done: adv}
 		return true
-	case "time.NewTimer", "time.AfterFunc", "(*time.Timer).Stop", "(*time.Timer).Reset", harnessPkg + ".Now":
+	case "time.NewTimer", "time.AfterFunc", "time.After", "(*time.Timer).Stop", "(*time.Timer).Reset", harnessPkg + ".Now":
 		// timer operations and clock reads are visible: their order relative to timer fires matters
 		kind := PTimer
 		if name == harnessPkg+".Now" {
@@ -709,6 +712,11 @@ func (in *Interp) callValue(g *G, fv *FuncV, args []Value, retTo ssa.Value, adv 
 			adv()
 		}}
 		return true
+	}
+	if strings.HasPrefix(name, "(*sync.") || name == "time.Sleep" {
+		if in.syncVisible(g, name, args, retTo, adv) {
+			return true
+		}
 	}
 	depth := len(g.frames)
 	in.pushCall(g, fv, args, retTo)
